@@ -135,6 +135,20 @@ func VP_C19_iso_time7_encode() {
 	vp.Cover("encoded")
 }
 
+// VP_C19_iso_time7_roundtrip: recording time -> 7 bytes -> time: same instant (to the second), same civil fields.
+func VP_C19_iso_time7_roundtrip() {
+	t, c := c19Time("t")
+	t2 := bytesToTime(timeToBytes(t))
+	vp.Assert(t2.Unix() == t.Unix(), "same instant to the second")
+	vp.Assert(t2.Year() == c.y, "year survives")
+	vp.Assert(int(t2.Month()) == c.mo, "month survives")
+	vp.Assert(t2.Day() == c.d, "day survives")
+	vp.Assert(t2.Hour() == c.h, "hour survives")
+	vp.Assert(t2.Minute() == c.mi, "minute survives")
+	vp.Assert(t2.Second() == c.s, "second survives")
+	vp.Cover("round trip")
+}
+
 // VP_C19_iso_time7_decode: decoding a 7-byte time (offset 0) gives the civil time its bytes name.
 func VP_C19_iso_time7_decode() {
 	b := vp.Bytes("t", 7)
@@ -145,8 +159,10 @@ func VP_C19_iso_time7_decode() {
 	vp.Assume(b[3] <= 23)
 	vp.Assume(b[4] <= 59)
 	vp.Assume(b[5] <= 59)
-	vp.Assume(b[6] == 0)
-	t := bytesToTime(b).UTC()
+	b[6] = 0 // GMT offset 0 (what timeToBytes writes for the UTC times Finalize records)
+	t := bytesToTime(b)
+	_, zoff := t.Zone()
+	vp.Assert(zoff == 0, "offset 0")
 	vp.Assert(t.Year() == 1900+int(b[0]), "year")
 	vp.Assert(int(t.Month()) == int(b[1]), "month")
 	vp.Assert(t.Day() == int(b[2]), "day")
@@ -193,7 +209,7 @@ func VP_C19_iso_tf_decode() {
 		vp.Assume(s[3] <= 23)
 		vp.Assume(s[4] <= 59)
 		vp.Assume(s[5] <= 59)
-		vp.Assume(s[6] == 0)
+		s[6] = 0
 	}
 	e, err := rr.parseTimestamps(b)
 	vp.Assert(err == nil, "TF parses")
@@ -203,7 +219,7 @@ func VP_C19_iso_tf_decode() {
 	want := []uint8{rockRidgeTimestampModify, rockRidgeTimestampAccess, rockRidgeTimestampAttribute}
 	for k := 0; k < 3; k++ {
 		s := b[5+7*k : 12+7*k]
-		t := tf.stamps[k].time.UTC()
+		t := tf.stamps[k].time // offset 0: civil components in its own zone = UTC components
 		vp.Assert(tf.stamps[k].timestampType == want[k], "stamp kind in bit order")
 		vp.Assert(t.Year() == 1900+int(s[0]), "year")
 		vp.Assert(int(t.Month()) == int(s[1]), "month")
